@@ -3,7 +3,7 @@
 // I192 (value view, From<u16>, comparison, TryFrom -> u16) so that units need not load shims/bigint.rs.
 // Real code: radix-common/src/math/decimal.rs :: Decimal::{SCALE, attos, checked_powi},
 //            radix-common/src/math/bnum_integer/convert.rs :: impl_to_builtin!(I192 -> u16),
-//            core :: u16::to_be_bytes (as the wrapper fn u16_to_be_bytes).
+//            core :: u16::to_be_bytes (as the extension method to_be_bytes_u16).
 // (Not to be included together with shims/decimal_attos.rs or shims/bigint.rs: duplicate declarations.)
 pub mod decimal_validator_ext {
     use vstd::prelude::*;
@@ -77,9 +77,16 @@ pub mod decimal_validator_ext {
 
     /// core: big-endian bytes of a u16 (most significant byte first).  Verus cannot attach a spec to
     /// `u16::to_be_bytes` itself (its std signature has an anonymous-const array length that
-    /// `assume_specification` cannot name), so units @subst `(e).to_be_bytes()` => `u16_to_be_bytes(e)`.
-    #[verifier::external_body]
-    pub fn u16_to_be_bytes(x: u16) -> (r: [u8; 2])
-        ensures r[0] as int == (x as int) / 256, r[1] as int == (x as int) % 256
-    { x.to_be_bytes() }
+    /// `assume_specification` cannot name), so units @subst `.to_be_bytes()` => `.to_be_bytes_u16()`;
+    /// the receiver expression stays verbatim.
+    pub trait U16BeBytes: Sized {
+        spec fn as_u16(self) -> u16;
+        fn to_be_bytes_u16(self) -> (r: [u8; 2])
+            ensures r[0] as int == (self.as_u16() as int) / 256, r[1] as int == (self.as_u16() as int) % 256;
+    }
+    impl U16BeBytes for u16 {
+        open spec fn as_u16(self) -> u16 { self }
+        #[verifier::external_body]
+        fn to_be_bytes_u16(self) -> (r: [u8; 2]) { self.to_be_bytes() }
+    }
 }
